@@ -1,6 +1,7 @@
 import GV.Model.Threshold
 import Mathlib.Analysis.SpecialFunctions.Pow.Real
 import GV.Proofs.ThresholdCert
+import GV.Gen.SrcG7
 /-!
 C37 — The leadership threshold is the exact floor of the Praos formula.
 
@@ -401,6 +402,58 @@ theorem never_eligible_without_output (mode : ℕ) (lv : List UInt8 → List UIn
     (hmode : mode = 0 ∨ mode = 1) : below mode lv [] t = some false := by
   have : ¬ (mode ≠ 0 ∧ mode ≠ 1) := by omega
   cases t <;> simp [below, this]
+
+/-- Regenerated tie: the top-level statements of the Go functions, re-extracted from the source on every
+    run, are the ones `guards`, `below` and the eligibility model of the driver were written from (mode
+    switch, guard ladder in this order, the threshold computed in the CALLER's mode, numerator and
+    denominator roots both raised to n).  Any edit of these functions breaks this obligation. -/
+theorem source_as_modelled :
+    GV.Gen.SrcG7.certifiedNatThresholdWithMode = [
+  "var upperBound *big.Int",
+  "switch mode { case ConsensusModeCPraos: upperBound = twoTo256 case ConsensusModeTPraos: upperBound = twoTo512 default: return nil, fmt.Errorf(\"unknown consensus mode: %d\", mode) }",
+  "if activeSlotCoeff == nil { return big.NewInt(0), nil }",
+  "if activeSlotCoeff.Sign() <= 0 { return big.NewInt(0), nil }",
+  "fCmpOne := activeSlotCoeff.Cmp(bigRatOne)",
+  "if fCmpOne > 0 { return nil, fmt.Errorf(\"activeSlotCoeff must not exceed 1 (100%%), got %s\", activeSlotCoeff.RatString()) }",
+  "if totalStake == 0 { return big.NewInt(0), nil }",
+  "if poolStake == 0 { return big.NewInt(0), nil }",
+  "if poolStake > totalStake { poolStake = totalStake }",
+  "if fCmpOne == 0 { return new(big.Int).Set(upperBound), nil }",
+  "oneMinusF := new(big.Rat).Sub(bigRatOne, activeSlotCoeff)",
+  "if exact, ok := exactOneMinusFPowerSigmaThreshold(oneMinusF, poolStake, totalStake, upperBound); ok { return exact, nil }",
+  "return escalateThreshold(oneMinusF, poolStake, totalStake, upperBound, seriesTargetBits, maxThresholdEscalationBits)"] ∧
+    GV.Gen.SrcG7.isVRFOutputBelowThresholdWithMode = [
+  "var useRawOutput bool",
+  "switch mode { case ConsensusModeCPraos: case ConsensusModeTPraos: useRawOutput = true default: return false, fmt.Errorf(\"unknown consensus mode: %d\", mode) }",
+  "if threshold == nil { return false, nil }",
+  "if len(vrfOutput) == 0 { return false, nil }",
+  "var leaderValue []byte",
+  "if useRawOutput { leaderValue = vrfOutput } else { leaderValue = VrfLeaderValue(vrfOutput) }",
+  "vrfInt := VRFOutputToInt(leaderValue)",
+  "return vrfInt.Cmp(threshold) < 0, nil"] ∧
+    GV.Gen.SrcG7.isSlotLeaderFromComponentsWithMode = [
+  "switch mode { case ConsensusModeCPraos, ConsensusModeTPraos: default: return false, fmt.Errorf(\"unknown consensus mode: %d\", mode) }",
+  "if activeSlotCoeff == nil || totalStake == 0 || poolStake == 0 { return false, nil }",
+  "if len(vrfOutput) != 64 { return false, nil }",
+  "threshold, err := CertifiedNatThresholdWithMode(poolStake, totalStake, activeSlotCoeff, mode)",
+  "if err != nil { return false, err }",
+  "return IsVRFOutputBelowThresholdWithMode(vrfOutput, threshold, mode)"] ∧
+    GV.Gen.SrcG7.exactOneMinusFPowerSigma = [
+  "g := new(big.Int).GCD(nil, nil, new(big.Int).SetUint64(poolStake), new(big.Int).SetUint64(totalStake))",
+  "n := new(big.Int).Quo(new(big.Int).SetUint64(poolStake), g)",
+  "m := new(big.Int).Quo(new(big.Int).SetUint64(totalStake), g)",
+  "numRoot, ok := exactIntegerNthRoot(oneMinusF.Num(), m)",
+  "if !ok { return nil, false }",
+  "denRoot, ok := exactIntegerNthRoot(oneMinusF.Denom(), m)",
+  "if !ok { return nil, false }",
+  "return new(big.Rat).SetFrac(new(big.Int).Exp(numRoot, n, nil), new(big.Int).Exp(denRoot, n, nil)), true"] ∧
+    GV.Gen.SrcG7.exactOneMinusFPowerSigmaThreshold = [
+  "powerExact, ok := exactOneMinusFPowerSigma(oneMinusF, poolStake, totalStake)",
+  "if !ok { return nil, false }",
+  "probabilityExact := new(big.Rat).Sub(bigRatOne, powerExact)",
+  "threshold := new(big.Int).Mul(upperBound, probabilityExact.Num())",
+  "threshold.Quo(threshold, probabilityExact.Denom())",
+  "return threshold, true"] := ⟨rfl, rfl, rfl, rfl, rfl⟩
 
 /-! non-vacuity -/
 example : certOK 1 4 1 2 (2 ^ 256) (2 ^ 255) = true := by decide   -- f = 3/4, σ = 1/2: exactly half
